@@ -27,6 +27,17 @@ Definition fix_header (m resp : msg) : msg :=
 Definition unsupported (m : msg) : bool :=
   h_resp (m_hdr m) || negb (h_rd (m_hdr m)) || negb (h_opcode (m_hdr m) =? 0)%N || negb (length (m_qs m) =? 1).
 
+(* respQuestionMatch / nameEqualFold (router.go forward): the reply carries no question, or exactly the question asked;
+   wire-format names are compared octet-wise after ASCII folding (length octets are < 'A': folding them is a no-op) *)
+Definition q_eq_ci (a b : question) : bool :=
+  list_eqb (map lower (q_name a)) (map lower (q_name b)) && (q_type a =? q_type b)%N && (q_class a =? q_class b)%N.
+Definition reply_question_ok (q : question) (r : msg) : bool :=
+  match m_qs r with
+  | [] => true
+  | [qr] => q_eq_ci qr q
+  | _ => false
+  end.
+
 Section Handle.
   Variable matches : nat -> list N -> bool.
   Variable rules : list rule.
@@ -43,7 +54,8 @@ Section Handle.
       let wire := pack_req ecs q client in
       match wire with
       | Ok _ => match up u wire with
-                | UReply r => (remove_opt r, [EQuery u wire])
+                | UReply r => if reply_question_ok q r then (remove_opt r, [EQuery u wire])
+                              else (empty_resp q RCodeServFail, [EQuery u wire])   (* errRespQuestionMismatch *)
                 | UFail => (empty_resp q RCodeServFail, [EQuery u wire])
                 end
       | _ => (empty_resp q RCodeServFail, [])          (* failed to pack req: no exchange *)
